@@ -460,6 +460,9 @@ theorem lifo_tag_counts {tr : List Ev} {s : SyncLifo.St} (h : Star Step SyncLifo
     s.tag = tr.countP Ev.isUpdate :=
   SyncLifo.lifo_tag_counts h
 
+/-- the model is of the branch this build compiles: `ABTD_ATOMIC_SUPPORT_TAGGED_PTR` is 1 -/
+example : Gen.Consts.taggedPtrCas = 1 := by decide
+
 /-- non-vacuity and teeth: the classic A-B-A interleaving is a behaviour of the model up to the
 stale CAS, which is then disabled; with a pointer-only CAS the same trace is accepted and leaves a
 corrupted stack (examples in Proofs/SyncLifo.lean, re-checked here) -/
